@@ -385,6 +385,7 @@ func main() {
 	}
 	if run.Only < 0 {
 		commitTie(run)
+		depGraphCLI(run, rnd.Fork(1<<40), filepath.Join(run.OutDir, "dg"))
 	}
 	os.RemoveAll(tmpRoot)
 }
